@@ -279,7 +279,10 @@ class Hist:
 
     def task_died(self, exc):
         kind = 'window' if type(exc).__name__ == 'ChainError' else 'utxo'
-        self.fails.append(('processing task died', f'the block processing task ended with {exc!r}', self.tags(kind)))
+        tags = self.tags(kind)
+        if self.w.stale_block_outside_window(exc):
+            tags = tags + ['F21']
+        self.fails.append(('processing task died', f'the block processing task ended with {exc!r}', tags))
 
     # -- environment
     def env_action(self):
@@ -526,9 +529,61 @@ def replay(case):
     return [f'{c}: {d}' for c, d, _t in h.run()]
 
 
+def f21_scenario():
+    """F21 on the real code, deterministically: reorg limit 2, the server caught up at height 8.  The
+    daemon extends by one block; the block processor fetches its hash and prefetches it, and its
+    advance job is held (a slow worker thread).  The daemon reorganises that block away (depth 1) and
+    grows 4 blocks on the new branch; the mempool tracker's height refresh raises the cached daemon
+    height.  The held job now indexes the stale block taking it for buried (no undo information);
+    the next poll finds that the new branch does not connect; the back-out is refused and the
+    processing task dies.  Returns the exception the task died with (or None)."""
+    import random
+    rng = random.Random(21)
+    gen = Gen(rng, 1000)
+    d = SimDaemon(gen, rng, latency=(0,))
+    d.extend(9, max_txs=1)
+    w = World(d, 1000, 2, Scheduler(rng, job_bias=0.5))
+    try:
+        w.build()
+        w.spawn('bp', w.bp.fetch_and_process_blocks(w.caught_up_event, w.shutdown_event))
+        w.run(d.height())
+        w.run_until(lambda: w.bp.caught_up and w.bp.state.height == d.tip.height)
+        w.advance_time(6)
+        w.sched.hold.add('advance_block')
+        old_tip = d.tip
+        d.extend(1, max_txs=1)
+        stale = d.tip
+
+        def fetched():
+            return any(j.name == 'advance_block' for j in w.loop.pending_jobs())
+        w.run_until(fetched, max_iter=4000)
+        b = old_tip
+        for _ in range(5):
+            b = gen.new_block(b, max_txs=1)
+        d.switch(b)
+        w.run(d.height())                 # what the mempool tracker's refresh does: the cached height moves
+        w.sched.hold.discard('advance_block')
+        for _ in range(10):
+            w.settle(1)
+            if w.errors:
+                break
+        if not w.errors:
+            return None
+        exc = w.errors[0][1]
+        return exc if w.stale_block_outside_window(exc) and w.adv_log.get(stale.height, (None,))[0] == stale.hex_hash else None
+    finally:
+        try:
+            w.stop()
+        except Exception:   # noqa
+            pass
+        w.destroy()
+
+
 def known_reproduces(finding):
+    if finding.get('witness', {}).get('kind') == 'F21':
+        return f21_scenario() is not None
     return bool(replay(finding['witness']))
 
 
 def matches_known(violation, finding):
-    return False
+    return finding.get('witness', {}).get('kind') == 'F21' and 'F21' in (violation.get('tags') or [])
